@@ -93,6 +93,13 @@ def floor(tier):
     for k, r in enumerate(rec):
         out.append({"grid": r, "variant": "plain", "vseed": 0,
                     "motion": _FIXED_MOTIONS[k % len(_FIXED_MOTIONS)]})
+    # non-convex cells (valid only on the oriented path) and strongly graded 1-D grids,
+    # each under a half-turn about an in-plane axis ("seen from behind") and a fixed motion
+    for k, r in enumerate(gg.floor_extra()):
+        out.append({"grid": r, "variant": "plain", "vseed": 0,
+                    "motion": {"mode": "axis", "q": [0.0, 1.0, 0.0, 0.0], "t": [0.5, 0.0, -1.0]}})
+        out.append({"grid": r, "variant": "plain", "vseed": 0,
+                    "motion": _FIXED_MOTIONS[(k + 3) % len(_FIXED_MOTIONS)]})
     for k, r in enumerate(gg.floor_recipes(dims=(2,))):
         out.append({"grid": r, "variant": "flipped", "vseed": 11 + k,
                     "motion": _FIXED_MOTIONS[(k + 1) % len(_FIXED_MOTIONS)]})
@@ -130,10 +137,13 @@ def generate(rng, tier, i):
              "tseed": int(rng.integers(0, 2**31)),
              "rigid": gg.random_rigid(rng) if rng.random() < 0.6 else None}
         return {"grid": r, "variant": "two-block", "vseed": 0, "motion": _motion(rng)}
-    r = gg.random_recipe(rng, rigid="embedded")
+    if u < 0.2:
+        r = gg.random_recipe(rng, dims=(1, 2), kinds=("graded", "nonconvex"), rigid="embedded")
+    else:
+        r = gg.random_recipe(rng, rigid="embedded")
     variant = "plain"
     vseed = 0
-    if r["dim"] == 2 and rng.random() < 0.3:
+    if r["dim"] == 2 and gg.convex(r) and rng.random() < 0.3:
         variant = "flipped"
         vseed = int(rng.integers(1, 2**31))
     return {"grid": r, "variant": variant, "vseed": vseed, "motion": _motion(rng)}
@@ -238,6 +248,18 @@ def check(case, mon):
 
     # the sign convention that removes the sign freedom: normals point out of +1 cells
     for tag, g in (("orig", g0), ("moved", g1)):
+        if r["kind"] == "nonconvex":
+            # centre-to-face test is meaningful for convex cells only; for non-convex
+            # cells the sign is pinned by the divergence theorem: sum_f sigma y_f.n_f = 2 V
+            fi, ci, sgn = sps.find(g.cell_faces)
+            y = g.face_centers[:, fi] - g.nodes[:, [0]]
+            lhs = np.bincount(ci, weights=sgn * np.sum(y * g.face_normals[:, fi], axis=0),
+                              minlength=g.num_cells)
+            mon.count("nonconvex_divergence_tests", g.num_cells)
+            mon.close("nonconvex_div_x", lhs, 2 * g.cell_volumes, TOL,
+                      "normal-not-outward", scale=float(np.max(g.cell_volumes)),
+                      detail={**what, "grid": tag})
+            continue
         fi, ci, sgn = sps.find(g.cell_faces)
         d = sgn * np.sum(g.face_normals[:, fi] * (g.face_centers[:, fi] - g.cell_centers[:, ci]),
                          axis=0)
